@@ -220,6 +220,12 @@ func c08pingpong(gs []c08ginfo, inProbe bool) bool {
 		if !c08blocked[g.state] {
 			return false
 		}
+		// the probe runs while its goroutine holds the deque's mutex: a goroutine waiting for a
+		// mutex may be waiting for that one (the event loop on its way into Deque.WaitPushBack /
+		// ForcePushBack) and is then about to run
+		if inProbe && strings.HasPrefix(g.state, "sync.") && g.state != "sync.Cond.Wait" {
+			return false
+		}
 	}
 	return some || inProbe
 }
@@ -657,6 +663,19 @@ func c08case(s *Sexp) string {
 		return "bad-op"
 	}
 	c08hookOnce.Do(func() { pubsub.VerifSetHook(c08hook) })
+	if dbg := os.Getenv("VERIF_C08_HANGDUMP"); dbg != "" {
+		fin := make(chan struct{})
+		defer close(fin)
+		go func() {
+			select {
+			case <-fin:
+			case <-time.After(15 * time.Second):
+				buf := make([]byte, 1<<20)
+				n := runtime.Stack(buf, true)
+				_ = os.WriteFile(fmt.Sprintf("%s-%d.txt", dbg, time.Now().UnixNano()), append([]byte(s.String()+"\n"), buf[:n]...), 0o644)
+			}
+		}()
+	}
 	c := &bcase{subs: map[int]*bsub{}, pubs: map[int]*bpub{}, deadline: c08deadline(), probeCh: make(chan [2]int64, 4)}
 	// leftovers of earlier cases in this process
 	c.quiesce()
